@@ -83,6 +83,8 @@ void TwoPointsNumericalDerivative::updateDerivatives(const ParameterList& parame
         }
       }
 
+      if (hf2 == 0)
+        function_->setParameters(parameters); // no probe was possible: undo the perturbation of the previous variable
       der1_[i] = (hf2 == 0) ? log(-1) : (f2_ - f1_) / h; // NaN when no probe was possible, as the three-point scheme does
     }
     // Reset last parameter and compute analytical derivatives if any:
